@@ -233,11 +233,40 @@ class StmtMixin(object):
             return self.exec_block(node.orelse, st, acc)
         s1 = st.copy()
         s1.assume(t)
+        self.refine_isinstance(node.test, s1, True)
         s1 = self.exec_block(node.body, s1, acc)
         s2 = st
         s2.assume(z3.Not(t))
+        self.refine_isinstance(node.test, s2, False)
         s2 = self.exec_block(node.orelse, s2, acc)
         return self.merge([s1, s2])
+
+    def refine_isinstance(self, test, st, positive):
+        """Flow-sensitive static class after `isinstance(x, C)` / `x is None` tests (locals only)."""
+        if isinstance(test, ast.UnaryOp) and isinstance(test.op, ast.Not):
+            return self.refine_isinstance(test.operand, st, not positive)
+        if isinstance(test, ast.BoolOp) and isinstance(test.op, ast.And) and positive:
+            for v in test.values:
+                self.refine_isinstance(v, st, True)
+            return
+        if positive and isinstance(test, ast.Call) and isinstance(test.func, ast.Name) \
+                and test.func.id == "isinstance" and len(test.args) == 2 \
+                and isinstance(test.args[0], ast.Name) and isinstance(test.args[1], ast.Name):
+            name, cname = test.args[0].id, test.args[1].id
+            v = st.env.get(name)
+            if v is not None and v is not POISON and v.z is not None and cname in self.src.classes \
+                    and cname not in self.u.enum_classes:
+                if v.cls is None or self.src.is_subclass(cname, v.cls) or v.cls in self.src.virtual:
+                    st.env[name] = SV(v.z, "ref", cls=cname, elem=v.elem)
+        if isinstance(test, ast.Compare) and len(test.ops) == 1 and isinstance(test.left, ast.Name) \
+                and isinstance(test.comparators[0], ast.Constant) and test.comparators[0].value is None:
+            name = test.left.id
+            v = st.env.get(name)
+            is_none_branch = (isinstance(test.ops[0], ast.Is) and positive) or \
+                             (isinstance(test.ops[0], ast.IsNot) and not positive)
+            if v is not None and v is not POISON and v.z is not None and v.kind is None and not is_none_branch \
+                    and v.extra and v.extra[0] == "opt" and v.extra[1]:
+                st.env[name] = self.typed(v.z, v.extra[1])
 
     def s_Return(self, node, st, acc):
         if node.value is None:
@@ -1040,6 +1069,29 @@ class StmtMixin(object):
         st, v = self.eval(node.args[0], st, acc)
         elem = ast.literal_eval(node.args[1]) if len(node.args) > 1 else None
         return st, SV(v.z, "ref", cls="list", elem=elem)
+
+    def spec_has_key(self, node, st, acc):
+        st, d = self.eval(node.args[0], st, acc)
+        st, k = self.eval(node.args[1], st, acc)
+        k = self.box(st, k)
+        return st, self.mk_bool(self.heap_array(st, "$has")[self.u.r(d.z)][k.z])
+
+    def spec_dict_value(self, node, st, acc):
+        st, d = self.eval(node.args[0], st, acc)
+        st, k = self.eval(node.args[1], st, acc)
+        k = self.box(st, k)
+        return st, SV(self.heap_array(st, "$val")[self.u.r(d.z)][k.z])
+
+    def spec_uf_keys(self, node, st, acc):
+        """the key list (insertion order) of a dict"""
+        st, d = self.eval(node.args[0], st, acc)
+        return st, SV(self.heap_array(st, "$keys")[self.u.r(d.z)], "ref", cls="list")
+
+    def spec_min(self, node, st, acc):
+        st, a = self.eval(node.args[0], st, acc)
+        st, b = self.eval(node.args[1], st, acc)
+        x, y = self.as_int(a), self.as_int(b)
+        return st, self.mk_int(z3.If(x <= y, x, y))
 
     def spec_has_kind(self, node, st, acc):
         st, v = self.eval(node.args[0], st, acc)
